@@ -180,22 +180,26 @@ Definition ib_step (st : ibuilder) (op : in_op) : ibuilder :=
   | InPlutus h o rid => ib_add_script h o (WPlutus rid) st
   end.
 
-(* script_hash_index_map of get_plutus_input_scripts: position among ALL inputs, kept for script inputs *)
-Fixpoint ib_index_map (i : N) (l : list (outpoint * option bytes)) : list (outpoint * N) :=
+(* script_hash_index_map of get_plutus_input_scripts: (current script hash, position among ALL inputs), kept for script inputs *)
+Fixpoint ib_index_map (i : N) (l : list (outpoint * option bytes)) : list (outpoint * (bytes * N)) :=
   match l with
   | [] => []
-  | (o, Some _) :: t => (o, i) :: ib_index_map (i + 1) t
+  | (o, Some h) :: t => (o, (h, i)) :: ib_index_map (i + 1) t
   | (o, None) :: t => ib_index_map (i + 1) t
   end.
-Definition ib_entry_redeemer (idx : list (outpoint * N)) (ow : outpoint * option wit) : list redeemer :=
+(* a witness registered under script hash h gets a redeemer only if the input is currently locked by h (repair ae86092) *)
+Definition ib_entry_redeemer (idx : list (outpoint * (bytes * N))) (h : bytes) (ow : outpoint * option wit) : list redeemer :=
   match snd ow with
   | Some (WPlutus rid) =>
-      match al_get outpoint_ltb (fst ow) idx with Some i => [mkR TSpend i rid] | None => [] end
+      match al_get outpoint_ltb (fst ow) idx with
+      | Some (h', i) => if eqb_of bytes_ltb h' h then [mkR TSpend i rid] else []
+      | None => []
+      end
   | _ => []
   end.
 Definition ib_plutus (st : ibuilder) : list redeemer :=
   let idx := ib_index_map 0 (ib_inputs st) in
-  flat_map (fun hm => flat_map (ib_entry_redeemer idx) (snd hm)) (ib_scripts st).
+  flat_map (fun hm => flat_map (ib_entry_redeemer idx (fst hm)) (snd hm)) (ib_scripts st).
 Definition ib_body (st : ibuilder) : list outpoint := map fst (ib_inputs st).
 Definition ib_has_plutus (st : ibuilder) : bool :=
   existsb (fun hm => existsb (fun ow => match snd ow with Some (WPlutus _) => true | _ => false end) (snd hm)) (ib_scripts st).
@@ -378,8 +382,17 @@ Definition model_obs (ops : list op) : list bool * result built :=
   let (st, flags) := run ops in (flags, tx_build st).
 
 (* ---------------------------------------------------------------------------------------- *)
-(* the behaviour BEFORE the repairs 2fef2d7 / c263357 (only used by the refutation theorems):
+(* the behaviour BEFORE the repairs 2fef2d7 / c263357 / ae86092 (only used by the refutation theorems):
    withdrawals emitted and indexed in insertion order, votes indexed by position in Rust order *)
 Definition wd_body_legacy (st : wbuilder) : list racct := map fst st.
 Definition wd_plutus_legacy (st : wbuilder) : list redeemer := flat_map (wentry_redeemer TReward) (enum_from 0 st).
 Definition vote_plutus_legacy (st : vbuilder) : list redeemer := flat_map (wentry_redeemer TVote) (enum_from 0 st).
+(* before ae86092: every registered Plutus witness of an input that is a script input now, whatever hash it is registered under *)
+Definition ib_entry_redeemer_legacy (idx : list (outpoint * (bytes * N))) (ow : outpoint * option wit) : list redeemer :=
+  match snd ow with
+  | Some (WPlutus rid) => match al_get outpoint_ltb (fst ow) idx with Some (_, i) => [mkR TSpend i rid] | None => [] end
+  | _ => []
+  end.
+Definition ib_plutus_legacy (st : ibuilder) : list redeemer :=
+  let idx := ib_index_map 0 (ib_inputs st) in
+  flat_map (fun hm => flat_map (ib_entry_redeemer_legacy idx) (snd hm)) (ib_scripts st).
